@@ -675,7 +675,7 @@ def _atom_lang(a):
     return z3.Option(r) if (lo, hi) == (0, 1) else z3.Loop(r, lo, hi)
 
 
-def match_model(ctx, pattern, s, label):
+def match_model(ctx, pattern, s, label, full=False):
     """re.match(pattern, s) / compiled.match(s) for the *deterministic* fragment: a sequence of characters, character classes and repeats of one
     class, in capture groups or not, where no repeated class can also begin what may follow it (checked here on the concrete pattern; anything else is
     Unsupported -> undecided).  In this fragment a string has at most one parse, so greedy matching plays no role except before a free tail, where the
@@ -715,7 +715,10 @@ def match_model(ctx, pattern, s, label):
             ends.append(cs)
     whole = [_atom_lang(a) for a in atoms]
     lang = z3.Concat(*whole) if len(whole) > 1 else (whole[0] if whole else z3.Re(""))
-    lang = z3.Concat(lang, z3.Option(z3.Re("\n"))) if anchored_end else z3.Concat(lang, z3.Star(ANY1))
+    if full:  # re.fullmatch: the whole string is in the language (no free tail; `$` alone would still admit one trailing newline)
+        lang = z3.Concat(lang, z3.Option(z3.Re("\n"))) if anchored_end else lang
+    else:
+        lang = z3.Concat(lang, z3.Option(z3.Re("\n"))) if anchored_end else z3.Concat(lang, z3.Star(ANY1))
     if not _fork(ctx, z3.InRe(s, lang), label):
         return None
     # the parse: maximal runs of atoms of the same group become one piece
@@ -757,6 +760,10 @@ def match_model(ctx, pattern, s, label):
         nl = ctx.fresh("newline-before-$", S)
         ctx.assume(z3.Or(nl == z3.StringVal(""), nl == z3.StringVal("\n")))
         ctx.assume(s == z3.Concat(matched, nl))
+    elif full:
+        tail = z3.StringVal("")
+        ctx.assume(s == matched)
+        groups["tail"] = tail
     else:
         tail = ctx.fresh("unmatched-tail", S)
         ctx.assume(s == z3.Concat(matched, tail))
@@ -1069,6 +1076,7 @@ def timedelta_model(ctx, args, kwargs):
     days = ctx.fresh("timedelta.days", I)   # floor division by hand (linear)
     ctx.assume(z3.And(days * US_DAY <= total, total < (days + 1) * US_DAY))
     if _fork(ctx, z3.Or(days > 999999999, days < -999999999), "timedelta-out-of-range"):
+        ctx.event("timedelta-out-of-range")
         _raise("OverflowError", "timedelta(days out of range)")
     ctx.event("timedelta", dict(given))
     return Rec("timedelta", attrs={"total_us": total, "given": dict(given)})
@@ -1140,7 +1148,7 @@ def td_setup(ctx):
             ctx.oblige("lemma", "H:MM:SS[.UUUUUU]-does-not-contain-'day'" + f"[{kind}]", z3.Not(z3.Contains(value, p("day"))), strings=True)
             _sliced(ctx, "strings")
             ctx.assume(z3.Not(z3.Contains(value, p("day"))))
-    return Setup(env={"value": value}, calls={"re.match": lambda c, a, k: match_model(c, a[0], a[1], "pattern-matches"), "float": float_model, "int": int_model, "timedelta": timedelta_model},
+    return Setup(env={"value": value}, calls={"re.match": lambda c, a, k: match_model(c, a[0], a[1], "pattern-matches"), "re.fullmatch": lambda c, a, k: match_model(c, a[0], a[1], "pattern-matches", full=True), "float": float_model, "int": int_model, "timedelta": timedelta_model},
                  data=dict(kind=kind, value=value, want=want, texts=dict(days=sd, hours=sh, minutes=sm, seconds=ss, us=su, plural=plural)),
                  watch={"value": value} if is_z3(value) else {})
 
@@ -1274,9 +1282,11 @@ def td_raises(ctx, st, exc):
     ctx.oblige("raises", f"text-that-is-not-a-duration-is-rejected-with-ValueError,never-another-exception-class(got {exc.cls}@{exc.origin})" + tag, ctx.classes.is_subclass(exc.cls, "ValueError"),
                watch={"value": d["value"]})
     if kind != "any string":
-        _sliced(ctx, _td_slice(ctx, d, True) if exc.cls == "OverflowError" else "strings")
+        # (since repo commit 9491c23 an out-of-range timedelta is converted to the ValueError of a rejected text: the path is recognised by the model's event)
+        overflow = exc.cls == "OverflowError" or any(e[0] == "timedelta-out-of-range" for e in ctx.events)
+        _sliced(ctx, _td_slice(ctx, d, True) if overflow else "strings")
         ctx.oblige("raises", f"str(timedelta)-of-a-duration-is-never-rejected(got {exc.cls}@{exc.origin})" + tag, False)
-        _sliced(ctx, _td_slice(ctx, d, True) if exc.cls == "OverflowError" else "strings")
+        _sliced(ctx, _td_slice(ctx, d, True) if overflow else "strings")
 
 
 # ================================================================================================ the units
